@@ -75,7 +75,10 @@ theorem replace_inv_of_noGap {f : Forest} (hi : f.Inv) (a b : Nat) (hg : f.textG
           rw [hia] at h2
           simp only
           cases r with
-          | ok => exact removeConsolidate_inv h2 _ _
+          | ok =>
+            cases f.nextSibling a with
+            | none => exact h2
+            | some n => exact removeConsolidate_inv h2 _ _
           | err e => exact h2
           | panic => exact h2
 
